@@ -3,7 +3,7 @@ import json, os, random
 from vlib import core, corr
 
 ENTRY_CLASSES = [
-    "EthernetII", "Dot3", "LLC", "SNAP", "Dot1Q", "MPLS", "PPPoE", "SLL", "Loopback", "PPI",
+    "EthernetII", "Dot3", "LLC", "SNAP", "Dot1Q", "MPLS", "PPPoE", "SLL", "Loopback", "PPI", "PKTAP",
     "IP", "IPv6", "IPSecAH", "IPSecESP", "TCP", "UDP", "ICMP", "ICMPv6",
     "BootP", "DHCP", "DHCPv6", "DNS", "RTP", "VXLAN", "ARP", "STP", "RC4EAPOL", "RSNEAPOL", "EAPOL*",
     "RadioTap", "RawPDU", "Dot11*", "Dot11", "Dot11Ack", "Dot11AssocRequest", "Dot11AssocResponse",
